@@ -43,6 +43,7 @@ pub struct SubStats {
     pub bound: String,
     pub exhaustive: bool,
     pub samples: Vec<Value>,
+    pub wall: f64,
 }
 
 #[derive(Default)]
@@ -58,7 +59,15 @@ pub struct Report {
     pub extra: BTreeMap<String, Value>,
 }
 
+pub enum Mode {
+    Normal,
+    Only { ord: u64, idx: u64 },
+    DescribeCrash { ord: u64, idxs: Vec<u64> },
+}
+
 pub struct Ctx {
+    pub mode: Mode,
+    pub par_ordinal: std::sync::atomic::AtomicU64,
     pub prop: String,
     pub tier: Tier,
     pub seed: u64,
@@ -78,6 +87,8 @@ impl Ctx {
         let seed = std::env::var("VERIF_SEED").ok().and_then(|s| s.parse().ok()).unwrap_or(0u64);
         let known = load_known(&root, prop);
         Ctx {
+            mode: Mode::Normal,
+            par_ordinal: std::sync::atomic::AtomicU64::new(0),
             prop: prop.to_string(),
             tier,
             seed,
@@ -122,6 +133,11 @@ impl Ctx {
         let mut r = self.rep.lock().unwrap();
         let s = r.subs.entry(sub.to_string()).or_default();
         s.cases += n;
+    }
+    pub fn space_wall(&self, sub: &str, w: f64) {
+        let mut r = self.rep.lock().unwrap();
+        let s = r.subs.entry(sub.to_string()).or_default();
+        s.wall += w;
     }
     /// Declare the bound reached by a sub-space and whether it was enumerated completely.
     pub fn bound(&self, sub: &str, bound: &str, exhaustive: bool) {
@@ -190,6 +206,11 @@ impl Ctx {
         std::process::exit(code);
     }
 
+    /// known finding of the hang/crash class: must be run in isolation
+    pub fn isolate(&self, key: &str) -> bool {
+        matches!(self.mode, Mode::Normal) && self.known.iter().any(|(k, t)| k == key && (t.contains("[hang]") || t.contains("[crash]")))
+    }
+
     pub fn is_known(&self, key: &str) -> Option<&str> {
         self.known.iter().find(|(k, _)| k == key).map(|(_, t)| t.as_str())
     }
@@ -229,7 +250,7 @@ impl Ctx {
                     "cases_enumerated": s.cases, "implementation_executions": s.evals,
                     "validated_against_oracle": s.validated, "nontrivial": s.nontrivial,
                     "distinct_outcomes": s.outcomes.len(), "bound": s.bound,
-                    "exhaustive_within_bound": s.exhaustive, "counters": s.counters,
+                    "exhaustive_within_bound": s.exhaustive, "counters": s.counters, "wall_s": (s.wall * 100.0).round() / 100.0,
                 }),
             );
         }
@@ -308,7 +329,7 @@ impl Ctx {
             "known_findings_observed": known_v.iter().map(|(k, (w, n))| json!({"key": k, "what": w, "distinct": n})).collect::<Vec<_>>(),
             "machinery_errors": r.machinery,
         });
-        if self.replay_filter.is_none() {
+        if self.replay_filter.is_none() && !matches!(self.mode, Mode::Only { .. }) {
             let edir = self.root.join("evidence");
             let _ = std::fs::create_dir_all(&edir);
             let p = edir.join(format!("{}.json", self.prop));
